@@ -68,13 +68,49 @@ def neutral_variants():
     # 1. a comment line and a blank line at the top of every module; 2. a docstring in every function
     for label, transform in (("comment+blank line prepended to every module", _prepend_comment),
                              ("docstring added to every function without one", _add_docstrings),
-                             ("keyword arguments of every call reversed", _reverse_keywords)):
+                             ("keyword arguments of every call reversed", _reverse_keywords),
+                             ("every module re-printed from its AST (layout, comments, parentheses normalised)", _reprint),
+                             ("every local variable renamed", _rename_locals)):
         out.append((label, transform))
     return out
 
 
 def _prepend_comment(src):
     return "# neutral variant\n\n" + src
+
+
+def _reprint(src):
+    return ast.unparse(ast.parse(src)) + "\n"
+
+
+class _LocalRenamer(ast.NodeTransformer):
+    def visit_FunctionDef(self, node):
+        params = {a.arg for a in node.args.posonlyargs + node.args.args + node.args.kwonlyargs}
+        if node.args.vararg:
+            params.add(node.args.vararg.arg)
+        if node.args.kwarg:
+            params.add(node.args.kwarg.arg)
+        glob = {n for x in ast.walk(node) if isinstance(x, (ast.Global, ast.Nonlocal)) for n in x.names}
+        stored = {x.id for x in ast.walk(node) if isinstance(x, ast.Name) and isinstance(x.ctx, ast.Store)} - params - glob
+        for x in ast.walk(node):
+            if isinstance(x, ast.Name) and x.id in stored:
+                x.id = x.id + "_rn"
+            elif isinstance(x, ast.ExceptHandler) and x.name and x.name in stored:
+                x.name = x.name + "_rn"
+        return node
+
+
+def _rename_locals(src):
+    tree = ast.parse(src)
+    for n in ast.walk(tree):
+        if isinstance(n, ast.ClassDef):
+            for m in n.body:
+                if isinstance(m, ast.FunctionDef):
+                    _LocalRenamer().visit_FunctionDef(m)
+    for m in tree.body:
+        if isinstance(m, ast.FunctionDef):
+            _LocalRenamer().visit_FunctionDef(m)
+    return ast.unparse(tree) + "\n"
 
 
 def _add_docstrings(src):
@@ -156,6 +192,18 @@ def _neutral_one(prop, label, transform):
         shutil.rmtree(d, ignore_errors=True)
 
 
+def _mutant_one(prop, label, relpath, src):
+    d = _scratch("mut")
+    try:
+        with open(os.path.join(d, relpath), "w", encoding="utf-8") as fh:
+            fh.write(src)
+        rc, nv, keys, aerr = _run(prop, d)
+        return {"variant": label, "kind": "single edit", "status": "killed" if rc == 1 else ("analysis-broken (fails closed)" if rc == 2 else "unnoticed"),
+                "keys": keys[:2]}
+    finally:
+        shutil.rmtree(d, ignore_errors=True)
+
+
 def run(prop, also_foreign=False):
     jobs = []
     seeded_dir = os.path.join(VERIF, "seeded")
@@ -170,16 +218,33 @@ def run(prop, also_foreign=False):
                                 "--format=", k["commit"], "--", "shexer"], capture_output=True, text=True)
             if r.returncode == 0 and r.stdout.strip():
                 jobs.append(("revert-" + k["commit"], "fix reverted", r.stdout, True, True))
+    from .core import Program
+    from . import mutate
+    seed = int(os.environ.get("VERIF_SEED", "0") or 0)
+    limit = int(os.environ.get("SA_MUTANTS", "40"))
+    mvars, n_anchor_funcs, n_sites = mutate.variants(Program(), prop, limit, seed)
     results = []
     with ThreadPoolExecutor(max_workers=min(16, os.cpu_count() or 4)) as ex:
         futs = [ex.submit(_one, prop, *j) for j in jobs]
         futs += [ex.submit(_neutral_one, prop, label, tr) for label, tr in neutral_variants()]
+        mfuts = [ex.submit(_mutant_one, prop, label, rel, src) for label, rel, src in mvars]
         for f in futs:
             results.append(f.result())
+        mres = [f.result() for f in mfuts]
     bad = [r for r in results if r["kind"] != "neutral"]
     killed = sum(1 for r in bad if r["status"].startswith("killed"))
     neutral = [r for r in results if r["kind"] == "neutral"]
-    summ = {"variants_expected_to_fire": len(bad), "killed": killed,
+    mk = sum(1 for r in mres if r["status"] == "killed")
+    mb = sum(1 for r in mres if r["status"].startswith("analysis-broken"))
+    print("[%s] single-edit variants of the anchored functions: %d generated from %d edit sites in %d functions; %d noticed "
+          "(violation), %d made the analysis fail closed, %d unnoticed (equivalent, irrelevant to the property, or missed)" % (
+              prop, len(mres), n_sites, n_anchor_funcs, mk, mb, len(mres) - mk - mb))
+    summ = {"single_edit_variants": {"generated": len(mres), "edit_sites": n_sites, "anchor_functions": n_anchor_funcs,
+                                     "noticed": mk, "analysis_fails_closed": mb,
+                                     "unnoticed": [r["variant"] for r in mres if r["status"] == "unnoticed"],
+                                     "note": "unnoticed variants are equivalent edits, edits irrelevant to this property, or misses; "
+                                             "they describe the checker, not /repo"},
+            "variants_expected_to_fire": len(bad), "killed": killed,
             "survived": [r["variant"] for r in bad if r["status"] == "SURVIVED"],
             "neutral_variants": len(neutral), "neutral_silent": sum(1 for r in neutral if r["status"] == "silent"),
             "false_alarms": [r["variant"] for r in neutral if r["status"] != "silent"],
